@@ -25,14 +25,30 @@ def gen_filterm(rng):
         re[1, 0, :] = 0; im[1, 0, :] = 0
     elif kind == 'real':
         im = im * 0
+    # tensor shapes of the fields sent through the ONE filter object: 0 = vector field (2,), c >= 1 = matrix field (2, c);
+    # several shapes on one object exercise the re-allocation of the internal array between calls
+    r = rng.random()
+    if r < 0.3:
+        cols = [0]
+    elif r < 0.6:
+        cols = [int(rng.integers(1, 4))]
+    else:
+        cols = [int(c) for c in rng.permutation([0, 1, 2, 3])[:int(rng.integers(2, 4))]]
+    if n * M > 40:
+        cols = cols[:2]
     return {'family': 'tie-filterm', 'n': n, 'M': M, 'delta': dy_nz(rng, 0.125, 2.0), 'zero': dy(rng, -2, 2), 'tf_re': re.tolist(), 'tf_im': im.tolist(),
-            'kind': kind, 'seed': int(rng.integers(0, 2 ** 31))}
+            'kind': kind, 'cols': cols, 'seed': int(rng.integers(0, 2 ** 31))}
+
+
+def _shape_name(c):
+    return 'vector(2)' if c == 0 else 'matrix(2,%d)' % c
 
 
 def tie_filterm(case):
     import hcipy
     t = Tie()
     n, M = case['n'], case['M']
+    cols = [int(c) for c in case.get('cols', [0])]
     g = _reg_grid([case['delta']], [n], [case['zero']], None)
     q = M / n
     tf_user = np.array(case['tf_re'], dtype='float64') + 1j * np.array(case['tf_im'], dtype='float64')      # (2, 2, M) on the FFT grid (centred order)
@@ -41,61 +57,81 @@ def tie_filterm(case):
         raise MachineryError('tie-filterm: q = %r on %d samples gives an internal array of %s samples, expected %d' % (q, n, probe.internal_shape, M))
     ff = hcipy.FourierFilter(g, hcipy.Field(tf_user.copy(), probe.output_grid), q)
     rng = np.random.default_rng(case['seed'])
-    # dense matrices from impulses, in a random call order on the one object (forward and backward interleaved)
-    Af = np.zeros((2 * n, 2 * n), dtype='complex128')
-    Ab = np.zeros((2 * n, 2 * n), dtype='complex128')
-    calls = [(d, b, j) for d in ('fwd', 'bwd') for b in (0, 1) for j in range(n)]
+    # dense matrices from impulses, in a random call order on the one object (forward and backward, all tensor shapes interleaved)
+    Af = {c: np.zeros((2 * max(c, 1) * n,) * 2, dtype='complex128') for c in cols}
+    Ab = {c: np.zeros((2 * max(c, 1) * n,) * 2, dtype='complex128') for c in cols}
+    calls = [(d, c, b, k, j) for d in ('fwd', 'bwd') for c in cols for b in (0, 1) for k in range(max(c, 1)) for j in range(n)]
     rng.shuffle(calls)
-    for d, b, j in calls:
-        x = np.zeros((2, n), dtype='complex128'); x[b, j] = 1
-        fld = hcipy.Field(x, g)
-        y = np.asarray(ff.forward(fld) if d == 'fwd' else ff.backward(fld))
-        if y.shape != (2, n):
-            t.bad.append(('filter-matrix-shape', 'FourierFilter.%s of a (2, %d) field returned shape %s' % (d, n, y.shape)))
+    for d, c, b, k, j in calls:
+        C = max(c, 1)
+        shp = (2, n) if c == 0 else (2, c, n)
+        x = np.zeros((2, C, n), dtype='complex128'); x[b, k, j] = 1
+        fld = hcipy.Field(x.reshape(shp), g)
+        try:
+            y = np.asarray(ff.forward(fld) if d == 'fwd' else ff.backward(fld))
+        except Exception as e:  # noqa
+            t.bad.append(('filter-raises', 'FourierFilter.%s (2x2 transfer function) of a %s field raised %s: %s (one object, earlier calls with tensor shapes %s)' % (
+                d, _shape_name(c), type(e).__name__, e, [_shape_name(cc) for cc in cols])))
             return t
-        (Af if d == 'fwd' else Ab)[:, b * n + j] = y.reshape(-1)
-    sc = max(float(np.abs(Af).max()), float(np.abs(Ab).max()), 1e-300)
-    e = float(np.abs(Ab - Af.conj().T).max())
-    if not e <= 1e-9 * sc:
-        t.bad.append(('filter-adjoint', 'FourierFilter (2x2 transfer function, %d samples padded to %d): the matrix of backward is not the conjugate transpose of the matrix '
-                      'of forward (max difference %.3g, scale %.3g)' % (n, M, e, sc)))
-    # numpy reference of forward: crop(ifft(D · fft(pad x)))
+        if y.shape != shp:
+            t.bad.append(('filter-matrix-shape', 'FourierFilter.%s of a %s field returned shape %s' % (d, shp, y.shape)))
+            return t
+        (Af if d == 'fwd' else Ab)[c][:, (b * C + k) * n + j] = y.reshape(-1)
     D = np.fft.ifftshift(tf_user, axes=-1)
+    Dh = np.conj(np.swapaxes(D, 0, 1))
     start = M // 2 - n // 2
-    ref = np.zeros_like(Af)
-    for b in (0, 1):
-        for j in range(n):
-            X = np.zeros((2, M), dtype='complex128'); X[b, start + j] = 1
-            Fx = np.fft.fft(X, axis=-1)
-            G = np.einsum('abr,br->ar', D, Fx)
-            ref[:, b * n + j] = np.fft.ifft(G, axis=-1)[:, start:start + n].reshape(-1)
-    e = float(np.abs(Af - ref).max())
-    if not e <= 1e-9 * max(float(np.abs(ref).max()), 1e-300):
-        t.bad.append(('filter-matrix-forward', 'FourierFilter.forward (2x2 transfer function) differs from crop(ifft(D·fft(pad x))) by %.3g' % e))
+    sc_all = 1e-300
+    for c in cols:
+        C = max(c, 1)
+        sc = max(float(np.abs(Af[c]).max()), float(np.abs(Ab[c]).max()), 1e-300)
+        sc_all = max(sc_all, sc)
+        e = float(np.abs(Ab[c] - Af[c].conj().T).max())
+        if not e <= 1e-9 * sc:
+            t.bad.append(('filter-adjoint', 'FourierFilter (2x2 transfer function, %s field, %d samples padded to %d): the matrix of backward is not the conjugate transpose '
+                          'of the matrix of forward (max difference %.3g, scale %.3g)' % (_shape_name(c), n, M, e, sc)))
+        # numpy references: forward = crop(ifft(D · fft(pad x))), backward = crop(ifft(Dᴴ · fft(pad y))), the 2x2 matrix applied from the left to every column
+        for dname, A, DD, key in (('forward', Af[c], D, 'filter-matrix-forward'), ('backward', Ab[c], Dh, 'filter-matrix-backward')):
+            ref = np.zeros_like(A)
+            for b in (0, 1):
+                for k in range(C):
+                    for j in range(n):
+                        X = np.zeros((2, C, M), dtype='complex128'); X[b, k, start + j] = 1
+                        Fx = np.fft.fft(X, axis=-1)
+                        G = np.einsum('abr,bkr->akr', DD, Fx)
+                        ref[:, (b * C + k) * n + j] = np.fft.ifft(G, axis=-1)[:, :, start:start + n].reshape(-1)
+            e = float(np.abs(A - ref).max())
+            if not e <= 1e-9 * max(float(np.abs(ref).max()), 1e-300):
+                t.bad.append((key, 'FourierFilter.%s (2x2 transfer function, %s field) differs from crop(ifft(%s·fft(pad x))) by %.3g' % (
+                    dname, _shape_name(c), 'D' if dname == 'forward' else 'Dᴴ', e)))
     # model: D r a b = entry 4r + 2a + b (native order)
     dre = [float(D[a, b, r].real) for r in range(M) for a in (0, 1) for b in (0, 1)]
     dim = [float(D[a, b, r].imag) for r in range(M) for a in (0, 1) for b in (0, 1)]
     picks = []
-    for d in ('fwd', 'bwd'):
-        for _ in range(2):
-            b, j = int(rng.integers(0, 2)), int(rng.integers(0, n))
-            picks.append((d, b, j))
-            t.lines.append('C02 filterm %s %d %d %s %s %d %d' % (d, n, M, rat_list(dre), rat_list(dim), b, j))
+    for c in cols:
+        for d in ('fwd', 'bwd'):
+            for _ in range(2 if len(cols) == 1 else 1):
+                b, k, j = int(rng.integers(0, 2)), int(rng.integers(0, max(c, 1))), int(rng.integers(0, n))
+                picks.append((d, c, b, k, j))
+                if c == 0:
+                    t.lines.append('C02 filterm %s %d %d %s %s %d %d' % (d, n, M, rat_list(dre), rat_list(dim), b, j))
+                else:
+                    t.lines.append('C02 filtermm %s %d %d %d %s %s %d %d %d' % (d, n, M, c, rat_list(dre), rat_list(dim), b, k, j))
 
     def check(rs):
-        for (d, b, j), r in zip(picks, rs):
+        for (d, c, b, k, j), r in zip(picks, rs):
             if not r.startswith('ok '):
                 return 'model filterm %s: %s' % (d, r)
             m = eval_psums(r)
-            real = (Af if d == 'fwd' else Ab)[:, b * n + j]
+            real = (Af if d == 'fwd' else Ab)[c][:, (b * max(c, 1) + k) * n + j]
             e = maxerr(m, real)
-            if not e <= 1e-9 * max(float(np.abs(m).max()), sc * 1e-6, 1e-300):
-                return 'FourierFilter.%s (2x2 transfer function, n=%d, M=%d) of the impulse (component %d, sample %d) differs from the model filterMX by %.3g' % (
-                    'forward' if d == 'fwd' else 'backward', n, M, b, j, e)
+            if not e <= 1e-9 * max(float(np.abs(m).max()), sc_all * 1e-6, 1e-300):
+                return 'FourierFilter.%s (2x2 transfer function, n=%d, M=%d, %s field) of the impulse (row %d, column %d, sample %d) differs from the model %s by %.3g' % (
+                    'forward' if d == 'fwd' else 'backward', n, M, _shape_name(c), b, k, j, 'filterMX' if c == 0 else 'filterMXM', e)
         return None
     t.check = check
-    t.counts = ['tie-filterm:' + case['kind'], 'tie-filterm:' + ('padded' if M > n else 'unpadded'), 'tie-filterm-n:%d' % n]
-    t.sig = ('tie-filterm', n, M, case['kind'])
+    t.counts = ['tie-filterm:' + case['kind'], 'tie-filterm:' + ('padded' if M > n else 'unpadded'), 'tie-filterm-n:%d' % n,
+                'tie-filterm-shapes-on-one-object:%d' % len(cols)] + ['tie-filterm-field:' + _shape_name(c) for c in cols]
+    t.sig = ('tie-filterm', n, M, case['kind'], tuple(cols))
     return t
 
 
@@ -107,6 +143,11 @@ DIRECTED = [
      'kind': 'triangular', 'seed': 1},
     {'family': 'tie-filterm', 'n': 3, 'M': 5, 'delta': 0.5, 'zero': -0.5, 'tf_re': [[[1.0, 0.5, 0.0, -1.0, 2.0], [0.0, 1.0, 0.25, 0.0, 0.0]], [[0.0, 0.0, 0.0, 0.0, 0.0], [1.0, 1.0, -0.5, 0.75, 0.0]]],
      'tf_im': [[[0.0, 1.0, 0.0, 0.5, 0.0], [0.25, 0.0, 0.0, -1.0, 0.0]], [[0.0, 0.0, 0.0, 0.0, 0.0], [0.0, -0.5, 0.0, 0.0, 1.0]]], 'kind': 'triangular', 'seed': 2},
+    # the same two on matrix-valued fields (Bad.filterM_right_conj_not_adjoint: Y·conj(D) instead of Dᴴ·Y), alone and after a vector field on the one object
+    {'family': 'tie-filterm', 'n': 1, 'M': 1, 'delta': 1.0, 'zero': 0.0, 'tf_re': [[[0.0], [1.0]], [[0.0], [0.0]]], 'tf_im': [[[0.0], [0.0]], [[0.0], [0.0]]],
+     'kind': 'triangular', 'cols': [2], 'seed': 3},
+    {'family': 'tie-filterm', 'n': 3, 'M': 5, 'delta': 0.5, 'zero': -0.5, 'tf_re': [[[1.0, 0.5, 0.0, -1.0, 2.0], [0.0, 1.0, 0.25, 0.0, 0.0]], [[0.0, 0.0, 0.0, 0.0, 0.0], [1.0, 1.0, -0.5, 0.75, 0.0]]],
+     'tf_im': [[[0.0, 1.0, 0.0, 0.5, 0.0], [0.25, 0.0, 0.0, -1.0, 0.0]], [[0.0, 0.0, 0.0, 0.0, 0.0], [0.0, -0.5, 0.0, 0.0, 1.0]]], 'kind': 'triangular', 'cols': [0, 2, 3, 1], 'seed': 4},
 ]
 
 
